@@ -14,5 +14,13 @@ CHECKS = [
      "text": "Exhaustive: every one of the 2^32 float patterns and 2^16 half patterns is executed by the real code (C function and C++ constructor/cast); the outputs are compressed into a run certificate and TLC validates every run end and every table entry against the IEEE-754 value semantics of spec/IEEE754.tla (IsRNE relation with exact big-integer arithmetic), plus tiling of the whole input space. A bounded model run (MCHalf) checks that a transcription of half.h's branch structure refines the same definition.",
      "note": "Trusted: the ~30 lines of run compression in harness/sweep_half.c; monotonicity of RNE in the magnitude bits (checked by TLC on the half lattice, not proved for binary32); the compiler at -O2 without -ffast-math. FP exception flags are not observed.",
      "technique": "TLA+ value-semantics spec (IsRNE relation) + TLC validation of a complete run certificate recorded from the code; TLC refinement check of transcribed algorithm"},
+    {"id": "C02",
+     "text": "One complete run certificate (all 2^32 floats, all 2^16 halves) per build configuration of half.h that this machine can produce (C++14 table / no-table / F16C, C with table; thorough adds C++17, C++20, C no-table, clang, FP-exception build), each validated by TLC against the same value-semantics relation (payload-relaxed for F16C NaNs); the generator toFloat.cpp is compiled from /repo and its 65,536 printed values and the 65,536 shipped table entries are validated against H2F. Since the relation is functional on the software paths, acceptance of every certificate implies bit-identity across configurations.",
+     "note": "Same trusted base as C01. MSVC-intrinsic and CUDA paths cannot be built here. Byte-identity of certificates across software configurations is reported as an extra datum.",
+     "technique": "TLC validation of per-configuration run certificates against a TLA+ IEEE-754 spec; generator output vs shipped table validated entry by entry"},
+    {"id": "C03",
+     "text": "TLC validates recorded executions of class half: all 2^16 patterns for classes/negation/isFinite/isNegative/fpclassify agreement/text round trip; round(n) against the RoundRel relation for n in 0..12 and large n; compound arithmetic with half and float right-hand sides over boundary-class operand sets against 'widen, one correctly rounded binary32 operation computed in exact arithmetic by the spec, narrow'; numeric_limits/HALF_* against extremal elements; halfFunction tables as a Build/Lookup state machine probed at all 2^16 patterns. MCHalf checks class partition, extremality of limits and satisfiability/functionality of RoundRel exhaustively.",
+     "note": "Arithmetic operand pairs are a boundary-class product plus seeded random pairs, not all 2^32 pairs. Decimal correctness of printed text is not decided (round trip only). NaN sign/payload of invalid operations is left to the hardware.",
+     "technique": "TLA+ spec of half semantics with exact dyadic arithmetic; TLC trace validation of recorded API calls; TLC bounded model run of the definitions"},
 ]
 NOT_APPLICABLE = [{"property_id": p, "reason": "check under construction in this round (planned in DESIGN.md section 4); not yet claimed"} for p in ALL if p not in [c["id"] for c in CHECKS]]
